@@ -210,3 +210,21 @@ Proof.
   - apply IH in H. destruct H as [H|[H|(r' & Hr' & H)]]; [left; exact H | right; left; exact H |].
     right; right. exists r'. split; [right; exact Hr' | exact H].
 Qed.
+
+(* after the transfers every name of the group that is there holds the source file's bytes [c]: the pass puts them on ONE inode *)
+Corollary relink_group_one_inode names s c :
+  NoDup names -> (forall p i, In p names -> d_names s p = Some i -> d_store s i = c) ->
+  let s' := relink_group s [] names in
+  forall p q i j, In p names -> In q names -> d_names s' p = Some i -> d_names s' q = Some j -> i = j.
+Proof.
+  intros Hnd Hc s' p q i j Hp Hq Ei Ej.
+  destruct (relink_group_correct names s Hnd) as (H1 & H2 & _). fold s' in H1, H2.
+  apply (H1 p q i j Hp Hq Ei Ej).
+  assert (Cp : content_of s' p = Some c).
+  { rewrite H2. unfold content_of. pose proof (H2 p) as X. unfold content_of in X. rewrite Ei in X. cbn [option_map] in X.
+    destruct (d_names s p) as [i0|] eqn:E0; [|discriminate]. cbn [option_map]. f_equal. apply (Hc p i0 Hp E0). }
+  assert (Cq : content_of s' q = Some c).
+  { rewrite H2. unfold content_of. pose proof (H2 q) as X. unfold content_of in X. rewrite Ej in X. cbn [option_map] in X.
+    destruct (d_names s q) as [j0|] eqn:E0; [|discriminate]. cbn [option_map]. f_equal. apply (Hc q j0 Hq E0). }
+  rewrite Cp, Cq. reflexivity.
+Qed.
